@@ -24,7 +24,7 @@ ID = "C19"
 LEVEL = "exploration"
 TIERS = {
     "quick": {"shards": 96, "examples": 16, "det_shards": 2},
-    "thorough": {"shards": 768, "examples": 40, "det_shards": 8},
+    "thorough": {"shards": 1024, "examples": 40, "det_shards": 8},
 }
 RULE = ("case = (cminx_gen_rst call, peer plan): input (file, flat or nested directory, missing path, file with a syntax "
         "error; relative inputs only under cmake -P), output directory, 0-4 extra arguments (flags with values, arguments "
